@@ -174,16 +174,23 @@ def unit_insert_file(eng):
 
 
 def unit_repeat(eng):
-    """.repeat n { body }: result is the concatenation of n compile_block results, copy i starting where copy i-1 ended (loop contract)"""
+    """.repeat n { body }: the result is the concatenation of exactly n compile_block results (ghost G, ghost count c), copy i compiled in
+    repeat context at the address where copy i-1 ended (loop contract); nothing else produces bytes"""
     def run(eng):
         eng.I = {}
         comp = compiler_obj(eng, output_charset="CHARSET")
         calls = []
+        eng.I.update(G=z3.Empty(BYTES), c=0)
 
         def c_compile_block(eng_, state, block, start):
             calls.append((state, block, start))
             k = pick(eng_, ["ready", "sized", "unsized", "sized-wrong+error", "concat"], "copy")
-            return make_chunk(eng_, k, "copy")[0]
+            eng_.fresh_n += 1
+            chunk, B = make_chunk(eng_, k, "copy!%d" % eng_.fresh_n)       # every copy has its own bytes
+            G = eng_.I["G"]
+            eng_.I["G"] = B if (z3.is_app(G) and G.decl().kind() == z3.Z3_OP_SEQ_EMPTY) else z3.Concat(G, B)
+            eng_.I["c"] = eng_.I["c"] + 1
+            return chunk
         comp.attrs["compile_block"] = Builtin("compile_block(contract)", c_compile_block)
         dyn, v, isint = dyn_input(eng, "count")
         body = mk_token(eng, "CodeBlock", insns=[])
@@ -192,7 +199,10 @@ def unit_repeat(eng):
         def inv(eng_, env):
             addr, res = env.lookup("addr"), env.lookup("result")
             st = env.lookup("state")
-            return [("error-or-address==start+bytes-of-the-copies-so-far", z3.Or(err_cond(eng_), view(eng_, addr) == view(eng_, st["emit_address"]) + slen(zbytes(view(eng_, res)))))]
+            G, c = eng_.I["G"], eng_.I["c"]
+            return [("error-or-address==start+bytes-of-the-copies-so-far", z3.Or(err_cond(eng_), view(eng_, addr) == view(eng_, st["emit_address"]) + slen(zbytes(view(eng_, res))))),
+                    ("result-is-the-concatenation-of-the-copies-compiled-so-far", zbytes(view(eng_, res)) == G),
+                    ("copies-compiled-so-far==iterations-done", c == env.lookup("__i0"))]
 
         def havoc(eng_, env):
             a = eng_.fresh_int("addr_final")
@@ -202,6 +212,8 @@ def unit_repeat(eng):
             env.assign("result", Lazy(d, "bytes") if pick(eng_, ["lazy", "ready"], "res_rep") == "lazy" else d)
             sym_error_marker(eng_)
             eng_.I["loop_addr"] = env.lookup("addr")
+            eng_.I["G"] = d
+            eng_.I["c"] = eng_.fresh_int("copies_so_far")
             del calls[:]
         spec = LoopSpec(inv, havoc)
         oinv = spec.inv
@@ -222,7 +234,9 @@ def unit_repeat(eng):
         if kind == "raise":
             eng.prove("only-RecoverableError-after-an-error", val.cls == "RecoverableError" and len(errors(eng)) >= 1)
             return
-        eng.prove("returns", True)
+        n = eng.I["count"]
+        eng.prove("the-result-is-exactly-the-concatenation-of-the-compiled-copies(nothing copied, dropped or added)", zbytes(view(eng, val)) == eng.I["G"])
+        eng.prove("exactly-n-copies-were-compiled-each-at-its-own-address", eng.I["c"] == z3.If(n > 0, n, 0))
     r = verify(eng, ".repeat", run, post, func="metacommands.repeat")
     for o in r["obligations"]:
         o["cfg"] = dict(kind="repeat")
